@@ -39,6 +39,12 @@ const (
 	c17FetchPhase = 20 * time.Millisecond
 	c17PeekPhase  = 10 * time.Millisecond
 	c17KeyPhase   = 2 * time.Millisecond
+	// expiries above c17LongMs (20 min) are "long": the case never ticks through
+	// them; only the lower half of the window oracle applies (present at every
+	// tick before floor(0.95e)), checked while the case advances seconds..hours
+	// and past the windows of every shorter expiry the key ever had
+	c17LongMs = 1200000
+	c17DayMs  = 86400000
 )
 
 type c17Taker struct {
@@ -96,6 +102,7 @@ type c17Ent struct {
 	val    int
 	set    int // wheel ticks seen when last set
 	lo, hi int
+	long   bool // expiry > c17LongMs: never ticked through
 }
 
 type c17Model struct {
@@ -106,6 +113,9 @@ type c17Model struct {
 	classes map[string]bool
 	// panicked: keys for which a fetch has panicked (classification only)
 	panicked map[string]bool
+	// shortEnd: latest tick at which any non-long expiry ever set in the case
+	// (overwritten or not) could still fire; the horizon runs past it
+	shortEnd int
 }
 
 func c17NewModel(limit int, classes map[string]bool) *c17Model {
@@ -134,7 +144,18 @@ func (m *c17Model) drop(k string) {
 // set stores the value; returns the evicted key ("" if none).
 func (m *c17Model) set(k string, val, tick, expMs int) string {
 	lo, hi := c17Window(expMs)
-	m.ents[k] = &c17Ent{val: val, set: tick, lo: lo, hi: hi}
+	if old, live := m.ents[k]; live && !old.long && expMs > c17LongMs {
+		m.classes["reset-short-to-long"] = true
+	}
+	if expMs > c17LongMs {
+		m.classes["set-long-expiry"] = true
+		if expMs > 10*c17DayMs {
+			m.classes["set-expiry-over-10-days"] = true
+		}
+	} else if tick+hi > m.shortEnd {
+		m.shortEnd = tick + hi
+	}
+	m.ents[k] = &c17Ent{val: val, set: tick, lo: lo, hi: hi, long: expMs > c17LongMs}
 	m.touch(k)
 	if m.limit > 0 && len(m.order) > m.limit {
 		victim := m.order[len(m.order)-1]
@@ -781,21 +802,29 @@ func c17Run(c c17Case, classes map[string]bool) string {
 		}
 	}
 	kit.Wait()
-	// horizon: every remaining entry is dropped inside its window
+	// horizon: every entry with an expiry <= 20 min is dropped inside its window;
+	// entries with a long expiry are not ticked through, they must survive the
+	// horizon, which also runs past every shorter expiry they had before a re-set
 	end := tickNow()
-	for _, e := range m.ents {
-		if e.set+e.hi > end {
-			end = e.set + e.hi
-		}
+	if m.shortEnd > end {
+		end = m.shortEnd
 	}
 	if f := stepTo(end+1, "horizon"); f != "" {
 		return f
 	}
-	if len(m.ents) != 0 {
-		panic("c17 harness: model not empty after horizon")
+	for k, e := range m.ents {
+		if !e.long {
+			panic("c17 harness: short-lived " + k + " in the model after the horizon")
+		}
+		classes["long-expiry-survives-horizon"] = true
 	}
 	for i := 0; i < c.NK; i++ {
-		if v, ok := cache.Get(c17Key(i)); ok {
+		v, ok := cache.Get(c17Key(i))
+		if e, live := m.ents[c17Key(i)]; live {
+			if !ok || v != any(e.val) {
+				return fmt.Sprintf("after horizon (tick %d): Get(%s) returned (%v,%v), most recently set value %d (set at tick %d, may be dropped for age only %d..%d ticks later)", tickNow(), c17Key(i), v, ok, e.val, e.set, e.lo, e.hi)
+			}
+		} else if ok {
 			return fmt.Sprintf("after horizon (tick %d): Get(%s) returned (%v,true)", tickNow(), c17Key(i), v)
 		}
 	}
@@ -838,7 +867,17 @@ func c17Interp(t *testing.T, c c17Case) (v kit.Verdict) {
 // ---- generator ----
 
 func c17GenExp(rt *rapid.T, label string) int {
-	switch rapid.SampledFrom([]string{"small", "small", "small", "mid", "mid", "rev", "big"}).Draw(rt, label+"-class") {
+	switch rapid.SampledFrom([]string{"small", "small", "small", "mid", "mid", "rev", "big", "long", "long"}).Draw(rt, label+"-class") {
+	case "long": // never ticked through: hours, days, and the multi-day values named in the follow-up
+		switch rapid.SampledFrom([]string{"hours", "days", "named", "named", "over10d"}).Draw(rt, label+"-long") {
+		case "hours":
+			return 60000 * rapid.IntRange(21, 24*60).Draw(rt, label) // 21 min .. 24 h
+		case "days":
+			return 3600000 * rapid.IntRange(24, 240).Draw(rt, label) // 1 .. 10 days
+		case "named":
+			return c17DayMs * rapid.SampledFrom([]int{7, 11, 12, 14, 20, 40}).Draw(rt, label)
+		}
+		return 100 * rapid.IntRange(10*c17DayMs/100, 60*c17DayMs/100).Draw(rt, label) // 10 .. 60 days
 	case "small":
 		return 100 * rapid.IntRange(20, 100).Draw(rt, label) // 2 s .. 10 s
 	case "mid":
@@ -884,7 +923,7 @@ func c17GenRawOp(nk int) *rapid.Generator[c17RawOp] {
 			o.Key = keyGen.Draw(rt, "k")
 			o.E = c17GenExp(rt, "e")
 		case "adv":
-			r.mode = rapid.SampledFrom([]string{"one", "few", "few", "lo", "lo", "hi", "hi", "rev", "long"}).Draw(rt, "adv")
+			r.mode = rapid.SampledFrom([]string{"one", "few", "few", "few", "lo", "lo", "lo", "hi", "hi", "hi", "rev", "rev", "long", "long", "hour"}).Draw(rt, "adv")
 			switch r.mode {
 			case "one":
 				o.N = 1
@@ -899,6 +938,8 @@ func c17GenRawOp(nk int) *rapid.Generator[c17RawOp] {
 				o.N = rapid.IntRange(c17Slots-5, c17Slots+5).Draw(rt, "n")
 			case "long":
 				o.N = rapid.IntRange(c17Slots+6, 700).Draw(rt, "n")
+			case "hour": // 3600 wheel ticks per virtual hour: rare and bounded
+				o.N = rapid.IntRange(3600, 4000).Draw(rt, "n")
 			}
 		case "take":
 			key := keyGen.Draw(rt, "k")
@@ -957,7 +998,7 @@ func c17Gen(rt *rapid.T) c17Case {
 		case "del":
 			gk[o.Key].live = false
 		case "adv":
-			if (r.mode == "lo" || r.mode == "hi") && gk[r.aim].live {
+			if (r.mode == "lo" || r.mode == "hi") && gk[r.aim].live && gk[r.aim].exp <= c17LongMs {
 				lo, hi := c17Window(gk[r.aim].exp)
 				tgt := gk[r.aim].set + lo
 				if r.mode == "hi" {
@@ -1005,11 +1046,11 @@ func TestVerif_C17_history(t *testing.T) {
 // (checked tick by tick by the same interpreter, horizon included).
 func c17EnumerateResets(thorough bool) func(yield func(c17Case) bool) {
 	e1s := []int{3000, 200000, 400000}
-	e2s := []int{3000, 290000, 650000}
+	e2s := []int{3000, 290000, 650000, 12 * c17DayMs, 20 * c17DayMs}
 	kinds := []string{"setx"}
 	if thorough {
 		e1s = []int{2000, 3000, 10000, 200000, 290000, 310000, 400000, 900000}
-		e2s = []int{2000, 10000, 100000, 290000, 310000, 650000, 1200000}
+		e2s = []int{2000, 10000, 100000, 290000, 310000, 650000, 1200000, 3600000, 7 * c17DayMs, 11 * c17DayMs, 12 * c17DayMs, 14 * c17DayMs, 20 * c17DayMs, 40 * c17DayMs}
 		kinds = []string{"setx", "del-setx", "set"}
 	}
 	return func(yield func(c17Case) bool) {
